@@ -84,7 +84,7 @@ def gen_c11(tier, seed):
                     if a + d <= U64MAX:
                         conv(a, a + d, f)
     # seeded random triples
-    for _ in range(60000 if big else 3000):
+    for _ in range(150000 if big else 8000):
         mode = rnd.random()
         f = rnd.choice([rnd_wide(rnd, 64), rnd.randint(1, 10 ** 10), rnd.choice(FREQS)]) or 1
         if mode < 0.4:
@@ -118,7 +118,7 @@ def gen_c11(tier, seed):
                     if 0 <= n <= 999_999_999:
                         scs.append(sc_("dur", j, secs=s_, nanos=n))
                         j += 1
-    for _ in range(10000 if big else 600):
+    for _ in range(30000 if big else 1500):
         scs.append(sc_("dur", j, secs=rnd_wide(rnd, 64), nanos=rnd.randint(0, 999_999_999)))
         j += 1
 
@@ -205,7 +205,7 @@ def gen_c18(tier, seed):
             for d in (-1, 0, 1):
                 dur(x + d)
     # seeded random 128-bit values, log-uniform
-    for _ in range(80000 if big else 4000):
+    for _ in range(200000 if big else 10000):
         dur(rnd_wide(rnd, 128))
     # precisions / widths the table uses: default, .4, left-aligned widths
     pool = [rnd_wide(rnd, 128) for _ in range(300 if big else 60)] + dur_centres()[::3] \
